@@ -316,7 +316,7 @@ ben('ben-c08-prepare-local', ['C08', 'C04', 'C13', 'C01'], ('chain.py', "       
 
 # ---------------------------------------------------------------------------------------------- C10
 mut('c10-prefix-textual-suffix', 'C10', 'R10.1', ('task.py', "            if all(t == cand or t.endswith(f':{cand}') for t in matching_tasks):", "            if all(t.endswith(cand) for t in matching_tasks):"))
-mut('c10-first-match-wins', 'C10', 'R10.2', ('task.py', "    if len(matching_tasks) > 1:\n        raise KeyError(f'Ambiguous task name `{task_name}`. Possible matches: {matching_tasks}')\n", ""))
+mut('c10-first-match-wins', 'C10', 'R10.2', ('task.py', "    if len(matching_tasks) > 1:\n        raise AmbiguousTaskNameError(f'Ambiguous task name `{task_name}`. Possible matches: {matching_tasks}')\n", ""))
 mut('c10-any-instead-of-all', 'C10', 'R10.2', ('task.py', "            if all(t == cand or t.endswith(f':{cand}') for t in matching_tasks):", "            if any(t != cand and t.endswith(f':{cand}') for t in matching_tasks):"))
 mut('c10-quantifier-skips-first', 'C10', 'R10.2', ('task.py', "            if all(t == cand or t.endswith(f':{cand}') for t in matching_tasks):", "            if all(t == cand or t.endswith(f':{cand}') for t in matching_tasks[1:]):"))
 mut('c10-missing-returns-none', 'C10', 'R10.2', ('task.py', "    if len(matching_tasks) == 0:\n        raise KeyError(f'Task `{task_name}` not found')\n    return matching_tasks[0]", "    if len(matching_tasks) == 0:\n        return None\n    return matching_tasks[0]"))
@@ -436,3 +436,30 @@ mut('c19-pattern-by-slugname', 'C19', 'R19.5', ('chain.py', "                   
 mut('c19-run-args-config-fallback', 'C19', 'R19.6', ('task.py', "            parameter_arg = self.parameters[arg] if arg in self.parameters else NO_VALUE\n", "            parameter_arg = self.parameters[arg] if arg in self.parameters else NO_VALUE\n            if parameter_arg is NO_VALUE and input_tasks_arg is NO_VALUE and self._config is not None and arg in self._config:\n                parameter_arg = self._config[arg]\n                args.append(parameter_arg)\n                continue\n"))
 
 ben('ben-c19-default-dict', ['C19'], ('utils/testing.py', "        if parameters is None:\n            parameters = {}\n", "        if parameters is None:\n            parameters = {}\n        assert isinstance(parameters, dict)\n"))
+
+# ---------------------------------------------------------------------------------------------- round 5 rules
+ben('ben-c09-own-data-dict-copy', ['C09', 'C11', 'C01'], ('config.py', "        own_data = {k: v for k, v in context.data.items() if k != 'uses'}\n", "        own_data = dict(context.data)\n        own_data.pop('uses', None)\n"))
+ben('ben-c09-use-context-local', ['C09', 'C08'], ('chain.py', "                use.context = config.context\n", "                inherited_context = config.context\n                use.context = inherited_context\n"))
+mut('c10-ambiguous-handler-unreachable', 'C10', 'R10.5',
+    ('chain.py', "                except AmbiguousTaskNameError as error:\n                    raise ValueError(f'Input task `{input_task_name}` of task `{task}` is ambiguous: {error}')\n                except KeyError:\n                    if not required:\n                        input_tasks[input_task_name] = default\n                        continue\n                    raise ValueError(f'Input task `{input_task_name}` of task `{task}` not found')\n",
+     "                except KeyError:\n                    if not required:\n                        input_tasks[input_task_name] = default\n                        continue\n                    raise ValueError(f'Input task `{input_task_name}` of task `{task}` not found')\n                except AmbiguousTaskNameError as error:\n                    raise ValueError(f'Input task `{input_task_name}` of task `{task}` is ambiguous: {error}')\n"))
+ben('ben-c10-ambiguous-chained', ['C10', 'C08'], ('chain.py', "                    raise ValueError(f'Input task `{input_task_name}` of task `{task}` is ambiguous: {error}')\n", "                    raise ValueError(f'Input task `{input_task_name}` of task `{task}` is ambiguous: {error}') from error\n"))
+ben('ben-c19-private-store', ['C19'], ('utils/testing.py', "        if base_dir is None:\n            base_dir = Path(tempfile.TemporaryDirectory().name)\n", "        base_dir = Path(tempfile.TemporaryDirectory().name)\n"))
+mut('c19-force-recompute-via-data', 'C19', 'R19.8', ('chain.py', "                _ = task.value\n", "                _ = task.data\n"))
+mut('c20-copytree-symlinks', 'C20', 'R20.10', ('utils/migration.py', "                copytree(old_task.data_path, new_task.data_path)\n", "                copytree(old_task.data_path, new_task.data_path, symlinks=True)\n"))
+mut('c20-size-self-compare', 'C20', 'R20.9', ('utils/migration.py', "                assert new_task.data_path.stat().st_size == old_task.data_path.stat().st_size\n", "                assert new_task.data_path.stat().st_size == new_task.data_path.stat().st_size\n"))
+ben('ben-c20-size-locals', ['C20'], ('utils/migration.py', "                assert new_task.data_path.stat().st_size == old_task.data_path.stat().st_size\n", "                target_size = new_task.data_path.stat().st_size\n                source_size = old_task.data_path.stat().st_size\n                assert target_size == source_size\n"))
+mut('c04-data-len', 'C04', 'R04.9', ('data.py', "class ListOfNumpyData(Data):\n    @property\n    def _path(self) -> Path:", "class ListOfNumpyData(Data):\n    def __len__(self):\n        return len(self._value or [])\n\n    @property\n    def _path(self) -> Path:"))
+mut('c05-dirdata-workdir-published', 'C05', 'R05.7', ('data.py', "            shutil.rmtree(self.tmp_path)\n        self.tmp_path.mkdir()\n        self._dir = self.tmp_path\n", "            shutil.rmtree(self.tmp_path)\n        self.tmp_path.mkdir()\n        self._dir = self.path if self.path.exists() else self.tmp_path\n"))
+ben('ben-c05-dirdata-workdir-local', ['C05', 'C01', 'C07'], ('data.py', "            shutil.rmtree(self.tmp_path)\n        self.tmp_path.mkdir()\n        self._dir = self.tmp_path\n", "            shutil.rmtree(self.tmp_path)\n        work_dir = self.tmp_path\n        work_dir.mkdir()\n        self._dir = work_dir\n"))
+mut('c06-write-jsons-peek', 'C06', 'R06.9', ('utils/io.py', "    with filename.open('w', encoding='utf-8') as f:\n        for j in progress_bar(jsons,", "    use_tqdm = use_tqdm and next(iter(jsons), None) is not None\n    with filename.open('w', encoding='utf-8') as f:\n        for j in progress_bar(jsons,"))
+ben('ben-c06-write-jsons-local-iter', ['C06', 'C05'], ('utils/io.py', "        for j in progress_bar(jsons, disable=not use_tqdm, desc=f'Writing to {f.name}', **kwargs):\n", "        items = progress_bar(jsons, disable=not use_tqdm, desc=f'Writing to {f.name}', **kwargs)\n        for j in items:\n"))
+mut('c17-asyncio-run', 'C17', 'R17.6', ('utils/iter.py', "    loop = asyncio.get_event_loop()\n    result = loop.run_until_complete(_run())\n", "    result = asyncio.run(_run())\n"))
+mut('c18-sidecar-truncated-name', 'C18', 'R18.7', ('data.py', "        return path.parent / f'{path.stem}.log'\n", "        return path.parent / f\"{path.name.split('.')[0]}.log\"\n"))
+mut('c13-name-mode-key-by-name', 'C13', 'R13.3e', ('chain.py', "            key = task.slugname, config.repr_name_without_namespace\n", "            key = task.slugname, config.name\n"))
+mut('c03-encode-replace', 'C03', 'R03.3', ('chain.py', "f'{parameter_repr}$$${input_tasks_repr}'.encode()", "f'{parameter_repr}$$${input_tasks_repr}'.encode(errors='replace')"))
+ben('ben-c03-encode-utf8-explicit', ['C03', 'C12', 'C01', 'C02'], ('chain.py', "f'{parameter_repr}$$${input_tasks_repr}'.encode()", "f'{parameter_repr}$$${input_tasks_repr}'.encode('utf-8')"))
+mut('c03-apo-skips-var-args', 'C03', 'R03.9', ('parameter.py', "            if arg in ignore_persistence_args:\n                continue\n            if hasattr(self, '_' + arg):", "            if arg in ignore_persistence_args:\n                continue\n            if parameter.kind in (parameter.VAR_POSITIONAL, parameter.VAR_KEYWORD):\n                continue\n            if hasattr(self, '_' + arg):"))
+mut('c14-inmemory-force-pops-first', 'C14', 'R14.6', ('cache.py', "        if key not in self._memory[get_ident()] or force:\n            self._memory[get_ident()][key] = computer()\n", "        if force:\n            self._memory[get_ident()].pop(key, None)\n        if key not in self._memory[get_ident()]:\n            self._memory[get_ident()][key] = computer()\n"))
+mut('c14-numpy-load-no-pickle', 'C14', 'R14.3', ('cache.py', "        return np.load(filepath, allow_pickle=True)\n", "        return np.load(filepath)\n"))
+mut('c15-numpy-load-mmap', 'C15', 'R15.5', ('cache.py', "        return np.load(filepath, allow_pickle=True)\n", "        return np.load(filepath, allow_pickle=True, mmap_mode='r')\n"))
